@@ -21,6 +21,10 @@ pub fn long_inputs(f: Family) -> Vec<Vec<u8>> {
 	v.push(format!("{seg40}/{big}?{mid}"));
 	v.push(format!("/{big}/{seg17}#{big}"));
 	v.push(format!("s://[::1]:65535/{mid}"));
+	// offsets that do not fit 16 bits
+	let huge = rep("z", 70_000);
+	v.push(format!("s://h/{huge}/x?{huge}#{huge}"));
+	v.push(format!("{huge}:{huge}"));
 	// many delimiters of the same kind inside one component (inline buffers sized by "at most n")
 	v.push("s://u:p:q:r:s:t:u:v:w:x@[1:2:3:4:5:6:7:8]:8080/p".to_string());
 	v.push("//user:pw@[2001:db8:0:1:2:3:4:5]:8080".to_string());
